@@ -42,7 +42,7 @@ fn track_mode_for(c: &Case) -> Track {
         Body::TwoPass if c.pt != Pt::U8 && c.pt != Pt::U8x4 => Track::RowsShared,
         // alpha-aware resize: the destination is written by a pass and then divided in place by
         // rows; for non-u8 types the writing pass is column-split
-        Body::AlphaResize if c.pt == Pt::U16x2 => Track::RowsShared,
+        Body::AlphaResize | Body::AlphaResizeCrop if c.pt == Pt::U16x2 => Track::RowsShared,
         _ => Track::RowsExclusive,
     }
 }
@@ -123,6 +123,9 @@ fn loom_specs(thorough: bool) -> Vec<Value> {
         (Body::DivAlphaInplace, 3, 40),
         (Body::AlphaResize, 33, 33),
         (Body::Nearest, 16, 64),
+        (Body::HorizCrop, 16, 64),
+        (Body::HorizCrop, 17, 64),
+        (Body::AlphaResizeCrop, 33, 33),
     ];
     for (body, dw, dh) in shapes {
         for &pt in PTS.iter() {
@@ -133,7 +136,9 @@ fn loom_specs(thorough: bool) -> Vec<Value> {
                 }
                 let regions = match body {
                     Body::TwoPass => 2,
-                    Body::AlphaResize => 4,
+                    Body::AlphaResize | Body::AlphaResizeCrop => 4,
+                    // premultiply, horizontal pass, divide
+                    Body::HorizCrop if has_alpha(pt) => 3,
                     _ => 1,
                 };
                 // loom allows 5 threads per execution in total: (W-1)*regions <= 4
@@ -525,7 +530,7 @@ fn main() {
                         continue;
                     }
                     let huge = dw.max(dh) > 1000;
-                    if huge && !matches!((body, pt), (Body::Horiz, Pt::U8) | (Body::Vert, Pt::U8) | (Body::MulAlpha, Pt::U8x4) | (Body::DivAlphaInplace, Pt::U16x2) | (Body::TwoPass, Pt::F32) | (Body::Nearest, Pt::U8)) {
+                    if huge && !matches!((body, pt), (Body::Horiz, Pt::U8) | (Body::Vert, Pt::U8) | (Body::MulAlpha, Pt::U8x4) | (Body::DivAlphaInplace, Pt::U16x2) | (Body::TwoPass, Pt::F32) | (Body::Nearest, Pt::U8) | (Body::HorizCrop, Pt::U8x4)) {
                         continue;
                     }
                     for &n in ns.iter() {
